@@ -656,7 +656,13 @@ class StateEngine(object):
                 "stopDate": None,
             }
 
-        execution_detail["stopDate"] = time.time()
+        """
+        The changes to the execution metadata are collected and applied with a
+        single update, so that a reader of the executions store (which may be
+        shared with other instances) sees either the RUNNING record or the
+        complete final record and never a partially updated one.
+        """
+        execution_update = {"stopDate": time.time()}
 
         with opentracing.tracer.start_active_span(
             operation_name="StartExecution:ExecutionEnding",
@@ -675,7 +681,7 @@ class StateEngine(object):
                     }
                 )
                 opentracing.tracer.active_span.set_tag("status", "FAILED")
-                execution_detail["status"] = "FAILED"
+                execution_update["status"] = "FAILED"
                 """
                 As per the DescribeExecution API, "output" is set only if the
                 execution succeeds. If the execution fails, this field is null
@@ -684,9 +690,10 @@ class StateEngine(object):
                 """
                 error = data.get("Error")
                 cause = data.get("Cause")
-                execution_detail["error"] = error
-                execution_detail["cause"] = cause
-                execution_detail["output"] = None
+                execution_update["error"] = error
+                execution_update["cause"] = cause
+                execution_update["output"] = None
+                execution_detail.update(execution_update)
                 self.update_execution_history(
                     state_machine,
                     execution_arn,
@@ -706,8 +713,9 @@ class StateEngine(object):
 
             else:
                 opentracing.tracer.active_span.set_tag("status", "SUCCEEDED")
-                execution_detail["status"] = "SUCCEEDED"
-                execution_detail["output"] = output_as_string
+                execution_update["status"] = "SUCCEEDED"
+                execution_update["output"] = output_as_string
+                execution_detail.update(execution_update)
                 self.update_execution_history(
                     state_machine,
                     execution_arn,
